@@ -8,6 +8,11 @@ Proof step (Props/C19.v) + tie:
   * correspondence: for every Hardcode.* / @lazy call of every generated program, the texts the real code hands
     to the parser (captured by harness/c19_run.py) must be the texts Model/Hardcode.v, Model/Lazy.v compute
     (mode HRepaired), including which diagnostic / Python exception stops the expansion.
+Strengthening round 1: compilations are grouped — a group is compiled in ONE process in a fixed order (scripted
+sequences with changing headers: gen_sequences; all other cases share processes too, with rotating headers) and a
+state-dependent failure is localised to the preceding compilations it needs (case.before, used by replay);
+number macros of every kind inside Hardcode.calc; @lazy calls: call form x argument kind x use site
+(gen_lazy_cross), call contexts (gen_lazy_contexts); the argument -> text step is part of the model.
 """
 from __future__ import annotations
 
@@ -290,6 +295,8 @@ class Hdr:
             if d[0] == "define":
                 lines.append(f"#define {d[1]} {d[2]}")
                 self.macros.append((d[1], str(d[2])))
+            elif d[0] == "defkw":        # a macro that is not a number: no number macro
+                lines.append(f"#define {d[1]} {d[2]}")
             elif d[0] == "enum":
                 _, cls, start, members = d
                 lines.append(f"#enum {cls} " + ("" if start is None else f"{start} ") + " ".join(members))
@@ -528,6 +535,7 @@ def gen_sequences(rng, tier):
         [('Hardcode.repeat((i)=>{ say "a Hardcode.calc(A+$i)"; }, start=0, stop=2);', Hdr(D("A", 1))),
          ('Hardcode.repeat((i)=>{ say "b Hardcode.calc(B+$i)"; }, start=0, stop=2);', Hdr(D("B", 2))),
          ('Hardcode.repeat((i)=>{ say "ab Hardcode.calc(A*B+$i)"; }, start=0, stop=2);', Hdr(D("A", 3), D("B", 4))),
+         ('Hardcode.repeat((i)=>{ say "ab Hardcode.calc(A*B+$i)"; }, start=0, stop=2);', Hdr(("defkw", "A", "foo"), D("B", 4))),   # A is no number now
          ('Hardcode.repeat((i)=>{ say "a Hardcode.calc(A+$i)"; }, start=0, stop=2);', Hdr(D("B", 2))),      # A is gone: rejected
          ('Hardcode.repeat((i)=>{ say "a Hardcode.calc(A+$i)"; }, start=0, stop=2);', None)],                  # no header at all
         # longer / shorter names come and go (longest-first order must be recomputed)
@@ -641,19 +649,22 @@ LAZY_ARG_KINDS = [
     ("json", '{"text":"hi","color":"red"}'), ("json", '[{"text":"a"},{"text":"b","bold":true}]'), ("json", "{a:1b,b:[1,2]}"),
     ("json", "[1,2,3]"), ("json", "{}"), ("json", '{"a b":"c d"}'), ("json", "{ a : 1 , b : 'x y' }"),
     ("score", "$v"), ("score", "obj:@s"), ("score", "$other.v"),
-    ("num", "Hardcode.calc(1+2)"), ("call", "say2(3)"), ("call", "inner.lazy(4, 5)"),
+    ("cnum", "Hardcode.calc(1+2)"), ("call", "say2(3)"), ("call", "inner.lazy(4, 5)"),
+    ("pos", "~ ~1 ~"), ("pos", "^ ^ ^-2.5"), ("pos", "1 2 3"), ("pos", "~ ~ ~"), ("pos", "~-1 64 ~0.5"), ("num", "- 3"), ("sel", "@e[type=zombie, limit=1]"),
     ("arrow0", '()=>{ say "in"; say "b"; }'), ("arrow1", '(i)=>{ say "x $i"; }'), ("arrow1", '(j)=>{ say "y $j"; $s += $j; }'),
 ]
 # use sites of a parameter in the body: (template over %s = "$name", classes for which the site is meaningful)
 LAZY_SITES = [
-    ("tellraw @a %s;", {"str", "num", "kw", "json", "sel", "float"}),
-    ('say "pre %s post";', {"sel", "num", "kw", "score", "float", "call"}),
+    ("tellraw @a %s;", {"str", "num", "cnum", "kw", "json", "sel", "float"}),
+    ('say "pre %s post";', {"sel", "num", "cnum", "kw", "score", "float", "call", "pos"}),
+    ("tp @s %s;", {"pos", "sel"}), ('execute positioned %s run say "here";', {"pos"}), ("setblock %s stone;", {"pos"}),
+    ('execute as @a at @s if block %s air run tp @s %s;', {"pos"}),
     ("data modify storage a:b c set value %s;", {"str", "num", "json", "kw", "float"}),
     ('tellraw @a {"text":%s,"bold":true};', {"str", "num", "kw", "float"}),
     ("give @s stone{a:%s};", {"str", "num", "json", "float"}),
     ('tellraw %s [{"text":"to"},%s];', {"sel"}),
-    ("$r = %s;", {"num", "score"}), ("$r += %s;", {"num", "score"}), ("$r *= %s;", {"num", "score"}), ("%s -= 2;", {"score"}),
-    ('if (%s > 3) { say "y"; say "z"; }', {"score"}), ('if ($x == %s) { say "y"; say "z"; } else { say "n"; }', {"num", "score"}),
+    ("$r = %s;", {"num", "cnum", "score"}), ("$r += %s;", {"num", "cnum", "score"}), ("$r *= %s;", {"num", "score"}), ("%s -= 2;", {"score"}),
+    ('if (%s > 3) { say "y"; say "z"; }', {"score"}), ('if ($x == %s) { say "y"; say "z"; } else { say "n"; }', {"num", "cnum", "score"}),
     ('if (entity %s) { say "e"; say "f"; }', {"sel"}), ('execute as %s at @s run say "hi";', {"sel"}),
     ('say "c Hardcode.calc(%s*2+1)";', {"num"}), ("$k = Hardcode.calc(10 - %s);", {"num"}), ('while ($w < Hardcode.calc(%s+1)) { $w++; }', {"num"}),
     ("scoreboard players set %s obj 1;", {"sel", "kw"}), ("%s;", {"call"}), ('say "n Hardcode.calc(1+2) %s";', {"num", "kw", "call"}),
@@ -802,6 +813,8 @@ def coq_tok(t) -> str:
         return f"(AParen {coq_str(t[1])})"
     if t[0] == "func":
         return f"(AFunc {coq_str(t[1])} {coq_str(t[2])})"
+    if t[0] == "gap":
+        return "AGap"
     return f"(AOther {coq_str(t[1])})"
 
 
@@ -944,6 +957,11 @@ def main(tier: str) -> int:
         "equals parsing the written-out text is exercised by the metamorphic comparison of real file maps only (C19_unroll_alloc is about an abstract statement-wise parser)",
         "harness/c19.py spec_subst / spec_calc / spec_eval: independent Python implementation of the specification used to write the manual expansions",
         "harness/c19_run.py wraps Hardcode*.call, DataPack.parse_function_token, PreFunction.handle_lazy/parse to capture inputs and texts",
+        "argument -> text of a @lazy call (merge_tokens / get_full_string: repr of string literals, arrow-function head, blanks between tokens) IS modelled "
+        "(Model/Lazy.v arg_text) from the argument's tokens as recorded by the runner; the text of a bracket token (clean_up_paren_token) and the "
+        "tokenisation of the call itself are inputs (outside the model); py_repr is CPython's repr on the characters 9, 10, 13, 32..126 only (other inputs are not generated)",
+        "number macros: the model gets the header's macros as the harness derives them from the directives it wrote (#define/#enum/#env + --env), "
+        "not the compiler's Header state, so stale or wrongly parsed macros show as a correspondence difference",
     ]
     ck.proof(extra_targets=["Run/C19.vo"])
     rng = ck.rng
@@ -1022,7 +1040,10 @@ def main(tier: str) -> int:
         disagreements_checked=len(bad), property_failures=n_fail, records=n_rec, records_modelled=len(terms),
         model_unsupported=len(unsup), case_kinds=kinds, outcome_histogram=outcome, record_histogram=rec_kinds,
         manual_missing=sum(1 for r in rows if r["case"].manual is None),
-        ranges="all (start, stop, step) in [-4,4]^3, step != 0",
+        ranges="all (start, stop, step) in [-4,4]^3, step != 0; plus random wide ranges (|start| <= 1000, |step| <= 100, up to 60 iterations)",
+        sequence_groups=len(seq_groups), sequence_compilations=sum(len(g) for g in seq_groups),
+        headers=len(HDRS), lazy_arg_kinds=len(LAZY_ARG_KINDS), lazy_sites=len(LAZY_SITES),
+        lazy_cross="call form (positional / keyword / reordered keywords / mixed) x argument kind x use site, 1-3 parameters per function",
     ))
     return ck.finish()
 
